@@ -274,7 +274,7 @@ theorem step_core (W : World H stored) (cs : Nat) {fs : FS} {p : Proc}
         intro n hn _
         simp [Proc.holds] at hn; subst hn
         exact ⟨_, hat, by simp only [Proc.need]; omega⟩
-      · simp only [nextOp, hc, applyOp, if_true, if_false]
+      · simp only [nextOp, hc, applyOp, if_false]
         refine ⟨hfs', grows_pwrite _ _ _ _, rfl, wf, hts, by simp [Proc.pcPure]; omega, ?_⟩
         intro n hn _
         simp [Proc.holds] at hn; subst hn
@@ -342,5 +342,237 @@ theorem step_core (W : World H stored) (cs : Nat) {fs : FS} {p : Proc}
   | dead =>
     simp only [nextOp, applyOp]
     exact ⟨hfs, grows_refl fs, rfl, wf, hts, trivial, by simp [Proc.holds]⟩
+
+/-- the partial write of a dying process -/
+theorem crash_core (W : World H stored) (cs k : Nat) {fs : FS} {p : Proc}
+    (hfs : FSInv H stored fs) (ok : ProcOK H stored fs p) :
+    let fs' := match (nextOp H cs fs p).1 with
+      | .write n off ch => if p.orph then fs else pwrite fs n off (ch.take k)
+      | _ => fs
+    FSInv H stored fs' ∧ Grows fs fs' := by
+  obtain ⟨id, data, ts, pc, orph⟩ := p
+  obtain ⟨det, wf, hts, pure, held⟩ := ok
+  simp only at det wf hts
+  subst det
+  cases pc with
+  | writeD off =>
+    have hp : off ≤ (stored id).length - 1 := pure
+    cases orph with
+    | true => simp only [nextOp]; exact ⟨hfs, grows_refl fs⟩
+    | false =>
+      obtain ⟨f, hf, hlen⟩ := held (.D (H (stored id))) rfl rfl
+      simp only [Proc.need] at hlen
+      simp only [nextOp, List.take_take]
+      exact ⟨fsinv_pwrite_data W hfs id off _ (fun g hg => by rw [hf] at hg; cases hg; exact hlen) (by omega),
+        grows_pwrite _ _ _ _⟩
+  | lastD =>
+    cases orph with
+    | true => simp only [nextOp]; exact ⟨hfs, grows_refl fs⟩
+    | false =>
+      obtain ⟨f, hf, hlen⟩ := held (.D (H (stored id))) rfl rfl
+      simp only [Proc.need] at hlen
+      simp only [nextOp]
+      exact ⟨fsinv_pwrite_data W hfs id _ _ (fun g hg => by rw [hf] at hg; cases hg; exact hlen) (by omega),
+        grows_pwrite _ _ _ _⟩
+  | idxWrite =>
+    cases orph with
+    | true => simp only [nextOp]; exact ⟨hfs, grows_refl fs⟩
+    | false =>
+      simp only [nextOp]
+      exact ⟨fsinv_pwrite_index W hfs wf hts k, grows_pwrite _ _ _ _⟩
+  | statD => simp only [nextOp]; exact ⟨hfs, grows_refl fs⟩
+  | hashcmp => simp only [nextOp]; exact ⟨hfs, grows_refl fs⟩
+  | openD t => simp only [nextOp]; exact ⟨hfs, grows_refl fs⟩
+  | idxOpen => simp only [nextOp]; exact ⟨hfs, grows_refl fs⟩
+  | idxTrunc => simp only [nextOp]; exact ⟨hfs, grows_refl fs⟩
+  | done => simp only [nextOp]; exact ⟨hfs, grows_refl fs⟩
+  | dead => simp only [nextOp]; exact ⟨hfs, grows_refl fs⟩
+
+theorem inv_stepProc (W : World H stored) (cs : Nat) {s : Sys} (h : Inv H stored s) (i : Nat) :
+    Inv H stored (stepProc H cs s i) := by
+  unfold stepProc
+  cases hp : s.procs[i]? with
+  | none => exact h
+  | some p =>
+    have hmem : p ∈ s.procs := List.mem_of_getElem? hp
+    obtain ⟨h1, h2, h3⟩ := step_core W cs h.fs (h.procs p hmem)
+    refine ⟨h1, ?_⟩
+    intro q hq
+    rcases List.mem_or_eq_of_mem_set hq with hq | hq
+    · exact procOK_grows (h.procs q hq) h2
+    · subst hq; exact h3
+
+theorem inv_crashProc (W : World H stored) (cs : Nat) {s : Sys} (h : Inv H stored s) (i k : Nat) :
+    Inv H stored (crashProc H cs s i k) := by
+  unfold crashProc
+  cases hp : s.procs[i]? with
+  | none => exact h
+  | some p =>
+    have hmem : p ∈ s.procs := List.mem_of_getElem? hp
+    have ok := h.procs p hmem
+    obtain ⟨h1, h2⟩ := crash_core W cs k h.fs ok
+    refine ⟨h1, ?_⟩
+    intro q hq
+    rcases List.mem_or_eq_of_mem_set hq with hq | hq
+    · exact procOK_grows (h.procs q hq) h2
+    · subst hq
+      exact ⟨ok.det, ok.wf, ok.ts, trivial, by simp [Proc.holds]⟩
+
+
+theorem inv_spawn {s : Sys} (h : Inv H stored s) (id : Bytes) (ts : Nat) :
+    Inv H stored (stepEv H stored cs s (.spawn id ts)) := by
+  simp only [stepEv]
+  split
+  · rename_i hc
+    simp at hc
+    refine ⟨h.fs, ?_⟩
+    intro q hq
+    simp at hq
+    rcases hq with hq | hq
+    · exact h.procs q hq
+    · subst hq
+      exact ⟨rfl, hc.1, hc.2, trivial, by simp [Proc.holds]⟩
+  · exact h
+
+theorem inv_truncate {s : Sys} (h : Inv H stored s) (n : Name) (len : Nat) :
+    Inv H stored (stepEv H stored cs s (.truncate n len)) := by
+  simp only [stepEv]
+  cases hf : s.fs n with
+  | none => exact h
+  | some f =>
+    simp only []
+    split
+    · rename_i hc
+      simp [atRest] at hc
+      refine ⟨fsinv_take h.fs hf len, ?_⟩
+      intro q hq
+      have ok := h.procs q hq
+      refine ⟨ok.det, ok.wf, ok.ts, ok.pure, ?_⟩
+      intro m hm ho
+      have hne : m ≠ n := by
+        intro e; subst e
+        have := hc.1 q hq
+        simp [hm, ho] at this
+      obtain ⟨g, hg, hl⟩ := ok.held m hm ho
+      exact ⟨g, by simp [hne, hg], hl⟩
+    · exact h
+
+theorem inv_unlink {s : Sys} (h : Inv H stored s) (n : Name) :
+    Inv H stored (stepEv H stored cs s (.unlink n)) := by
+  simp only [stepEv]
+  refine ⟨fsinv_unlink h.fs n, ?_⟩
+  intro q hq
+  simp at hq
+  obtain ⟨q0, hq0, rfl⟩ := hq
+  have ok := h.procs q0 hq0
+  by_cases hh : q0.holds H = some n
+  · simp only [hh, if_true]
+    exact ⟨ok.det, ok.wf, ok.ts, ok.pure, by simp⟩
+  · simp only [hh, if_false]
+    refine ⟨ok.det, ok.wf, ok.ts, ok.pure, ?_⟩
+    intro m hm ho
+    have hne : m ≠ n := by intro e; subst e; exact hh hm
+    obtain ⟨g, hg, hl⟩ := ok.held m hm ho
+    exact ⟨g, by simp [unlink, hne, hg], hl⟩
+
+
+/-! ### progress of an undisturbed writer -/
+
+/-- progress facts of a writer that nobody disturbs -/
+structure Prog (H : Bytes → Bytes) (fs : FS) (p : Proc) : Prop where
+  live : p.orph = false
+  dataFull : p.pc = .idxOpen ∨ p.pc = .idxWrite ∨ p.pc = .idxTrunc ∨ p.pc = .done →
+    fs (.D (H p.data)) = some p.data
+  idxFull : p.pc = .idxTrunc ∨ p.pc = .done →
+    fs (.A p.id) = some (entry p.id (H p.data) p.data.length p.ts)
+
+theorem full_of_grows {fs fs' : FS} (h' : FSInv H stored fs') (g : Grows fs fs') {id : Bytes}
+    (hf : fs (.D (H (stored id))) = some (stored id)) : fs' (.D (H (stored id))) = some (stored id) := by
+  obtain ⟨f', hf', hl⟩ := g _ _ hf
+  rw [hf', agreeOn_all_full (h'.data id f' hf') hl]
+
+theorem pwriteB_zero_cover {f ch : Bytes} (h : f.length ≤ ch.length) : pwriteB f 0 ch = ch := by
+  unfold pwriteB
+  split
+  · simp_all
+  · simp [zeros]; omega
+
+theorem prog_core (W : World H stored) (cs : Nat) {fs : FS} {p : Proc}
+    (hfs : FSInv H stored fs) (ok : ProcOK H stored fs p) (pr : Prog H fs p) :
+    Prog H (applyOp fs p.orph (nextOp H cs fs p).1).1
+      { p with pc := (nextOp H cs fs p).2, orph := (applyOp fs p.orph (nextOp H cs fs p).1).2 } := by
+  obtain ⟨hfs', hgr, _⟩ := step_core W cs hfs ok
+  obtain ⟨id, data, ts, pc, orph⟩ := p
+  obtain ⟨det, wf, hts, pure, held⟩ := ok
+  obtain ⟨live, dfull, ifull⟩ := pr
+  simp only at det wf hts live
+  subst det live
+  cases pc with
+  | statD =>
+    cases hf : fs (.D (H (stored id))) with
+    | none => simp only [nextOp, hf, applyOp]; exact ⟨rfl, by simp, by simp⟩
+    | some f =>
+      by_cases hl : f.length = (stored id).length
+      · simp only [nextOp, hf, hl, applyOp, if_true]; exact ⟨rfl, by simp, by simp⟩
+      · simp only [nextOp, hf, hl, applyOp, if_false]; exact ⟨rfl, by simp, by simp⟩
+  | hashcmp =>
+    cases hf : fs (.D (H (stored id))) with
+    | none => simp only [nextOp, hf, applyOp]; exact ⟨rfl, by simp, by simp⟩
+    | some f =>
+      by_cases hl : H f = H (stored id)
+      · simp only [nextOp, hf, hl, applyOp, if_true]
+        exact ⟨rfl, fun _ => by rw [hf, W.nocoll id f hl], by simp⟩
+      · simp only [nextOp, hf, hl, applyOp, if_false]; exact ⟨rfl, by simp, by simp⟩
+  | openD t =>
+    have ht : t = false := pure
+    subst ht
+    by_cases h0 : (stored id).length = 0
+    · simp only [nextOp, h0, applyOp, if_true] at hfs' ⊢
+      refine ⟨rfl, fun _ => ?_, by simp⟩
+      obtain ⟨g, hg⟩ := openCreate_exists fs (.D (H (stored id))) false
+      have := (hfs'.data id g hg).1
+      have hgn : g = [] := List.eq_nil_of_length_eq_zero (by omega)
+      rw [hg, hgn, List.eq_nil_of_length_eq_zero h0]
+    · by_cases h1 : (stored id).length - 1 = 0
+      · simp only [nextOp, h0, h1, applyOp, if_true, if_false]; exact ⟨rfl, by simp, by simp⟩
+      · simp only [nextOp, h0, h1, applyOp, if_false]; exact ⟨rfl, by simp, by simp⟩
+  | writeD off =>
+    by_cases hc : off + min cs ((stored id).length - 1 - off) ≥ (stored id).length - 1
+    · simp only [nextOp, hc, applyOp, if_true]; exact ⟨rfl, by simp, by simp⟩
+    · simp only [nextOp, hc, applyOp, if_false]; exact ⟨rfl, by simp, by simp⟩
+  | lastD =>
+    obtain ⟨f, hf, hlen⟩ := held (.D (H (stored id))) rfl rfl
+    simp only [Proc.need] at hlen
+    simp only [nextOp, applyOp] at hfs' ⊢
+    refine ⟨rfl, fun _ => ?_, by simp⟩
+    have hat := pwrite_at hf ((stored id).length - 1) ((stored id).drop ((stored id).length - 1))
+    simp only [Bool.false_eq_true, if_false] at hfs' ⊢
+    rw [hat]
+    have hl := pwriteB_length (ch := (stored id).drop ((stored id).length - 1)) hlen
+    rw [agreeOn_all_full (hfs'.data id _ hat) (by rw [hl]; simp; omega)]
+  | idxOpen =>
+    simp only [nextOp, applyOp] at hfs' hgr ⊢
+    exact ⟨rfl, fun _ => full_of_grows hfs' hgr (dfull (by simp)), by simp⟩
+  | idxWrite =>
+    have w := entryWF_of W wf hts
+    obtain ⟨f, hf, _⟩ := held (.A id) rfl rfl
+    have hfl : f.length ≤ 175 := by have := (hfs.index id f hf).1; rwa [canon_length W wf] at this
+    simp only [nextOp, applyOp, Bool.false_eq_true, if_false] at hfs' hgr ⊢
+    refine ⟨rfl, fun _ => full_of_grows hfs' hgr (dfull (by simp)), fun _ => ?_⟩
+    rw [pwrite_at hf, pwriteB_zero_cover (by rw [entry_length w]; exact hfl)]
+  | idxTrunc =>
+    have w := entryWF_of W wf hts
+    have he := ifull (by simp)
+    simp only at he
+    have : ftruncate fs (.A id) (entry id (H (stored id)) (stored id).length ts).length = fs := by
+      simp only [ftruncate, he, truncB_self]; exact set_same he
+    simp only [nextOp, applyOp, Bool.false_eq_true, if_false, this]
+    exact ⟨rfl, fun _ => dfull (by simp), fun _ => he⟩
+  | done =>
+    simp only [nextOp, applyOp]
+    exact ⟨rfl, fun _ => dfull (by simp), fun _ => ifull (by simp)⟩
+  | dead =>
+    simp only [nextOp, applyOp]; exact ⟨rfl, by simp, by simp⟩
+
 
 end Verif.C05
